@@ -335,9 +335,10 @@ class _VariationalStrategy(Module, ABC):
             self.variational_params_initialized.fill_(1)
 
         # Ensure inducing_points and x are the same size
+        # (always: subclasses such as BatchDecoupledVariationalStrategy add their own batch dimension to x here,
+        # which must not be skipped when the batch shape of x happens to equal that of the stacked inducing points)
         inducing_points = self.inducing_points
-        if inducing_points.shape[:-2] != x.shape[:-2]:
-            x, inducing_points = self._expand_inputs(x, inducing_points)
+        x, inducing_points = self._expand_inputs(x, inducing_points)
 
         # Get p(u)/q(u)
         variational_dist_u = self.variational_distribution
